@@ -229,6 +229,9 @@ func genData(r *rand.Rand, w Window, lb int64, o GenOpts) []SeriesData {
 					v = math.Inf(-1)
 				case 3:
 					v = 0
+					if len(smp)%2 == 1 {
+						v = math.Copysign(0, -1) // every other one a negative zero (no extra random draw)
+					}
 				}
 			}
 			if r.Intn(25) == 0 {
